@@ -30,6 +30,31 @@ FILTER_ID = {"gzip": 1, "shuffle": 2, "fletcher32": 3}
 
 # ----------------------------------------------------------------------------- generators
 
+def single_ext(rng, i):
+    """one dataset of the compound / array / enum / opaque(tag) / reference / variable-length kinds (spec_safe: see histgen)"""
+    dims = histgen.rand_shape(rng, maxrank=3, maxelems=120)
+    if rng.random() < 0.4:
+        comp = histgen.rand_compound(rng, spec_safe=True)
+        op = dict({"op": "mkcompound", "path": "/c%d" % (i % 3), "dims": dims}, **comp)
+        d = dict(dtype="compound", dims=dims, comp=comp, csize=comp["csize"])
+    else:
+        f = histgen.rand_ext_kind(rng, spec_safe=True)
+        op = dict({"op": "mkds", "path": "/x%d" % (i % 3), "dims": dims}, **f)
+        d = dict(f, dims=dims)
+        if rng.random() < 0.5:
+            ch = histgen.rand_chunk(rng, dims)
+            op["chunk"] = [min(c, x) for c, x in zip(ch, dims)]
+            if rng.random() < 0.3 and not f["dtype"].startswith("vlen:"):
+                op["filters"] = [x for x in ("shuffle", "gzip:%d" % rng.randint(1, 9), "fletcher32") if rng.random() < 0.5] or ["gzip:1"]
+    ops = [op]
+    if rng.random() < 0.9:
+        ops.append(histgen.write_op(rng, op["path"], d))
+    if rng.random() < 0.3:
+        k, v = histgen.rand_attr_value(rng)
+        ops.append({"op": "setattr", "path": op["path"], "name": hx("a"), "kind": k, "val": v.hex()})
+    return ops
+
+
 def single_dataset(rng, i):
     dt = rng.choice(list(ESZ) + ["string", "opaque"])
     dims = histgen.rand_shape(rng)
@@ -63,20 +88,28 @@ def cases_for(rng, tier):
     q = tier == "quick"
     cases = []
     sbv = lambda: rng.choice([0, 2, 3])
-    for i in range(900 if q else 20000):
+    # spec_safe / dense=False: see histgen.rand_compound, rand_ext_kind (classes the specification tie cannot express: proposed findings
+    # C05-compound-member-float-props, C05-compound-string-member-not-last, replayed by known_cases) - new-style (dense) groups are
+    # not implemented by tools/h5spec.py
+    G = dict(spec_safe=True, dense=False)
+    for i in range(750 if q else 20000):
         cases.append({"sb": sbv(), "ops": single_dataset(rng, i), "gen": "single"})
-    for i in range(600 if q else 12000):
-        cases.append({"sb": sbv(), "ops": histgen.gen_mixed(rng, nops=rng.choice([12, 30, 60]), fail_rate=0.08), "gen": "mixed"})
+    for i in range(350 if q else 9000):
+        cases.append({"sb": sbv(), "ops": single_ext(rng, i), "gen": "single-ext"})
+    for i in range(500 if q else 12000):
+        cases.append({"sb": sbv(), "ops": histgen.gen_mixed(rng, nops=rng.choice([12, 30, 60]), fail_rate=0.08, **G), "gen": "mixed"})
+    for i in range(160 if q else 6000):
+        cases.append({"sb": sbv(), "ops": histgen.gen_mixed(rng, nops=rng.choice([30, 60]), sessions=rng.choice([2, 3]), fail_rate=0.05, **G), "gen": "sessions"})
+    for i in range(160 if q else 4000):
+        cases.append({"sb": sbv(), "ops": histgen.gen_tail_kind(rng, **G), "gen": "tail-kind"})
+    for i in range(350 if q else 9000):
+        cases.append({"sb": sbv(), "ops": c02.one_history(rng, rng.choice([3, 8, 15, 30, 60, 120]), spec_safe=True), "gen": "attrs"})
     for i in range(240 if q else 6000):
-        cases.append({"sb": sbv(), "ops": histgen.gen_mixed(rng, nops=rng.choice([30, 60]), sessions=rng.choice([2, 3]), fail_rate=0.05), "gen": "sessions"})
-    for i in range(400 if q else 9000):
-        cases.append({"sb": sbv(), "ops": c02.one_history(rng, rng.choice([3, 8, 15, 30, 60, 120])), "gen": "attrs"})
-    for i in range(260 if q else 6000):
-        cases.append({"sb": sbv(), "ops": c03.one_history(rng), "gen": "tree"})
-    for i in range(360 if q else 9000):
-        cases.append({"sb": sbv(), "ops": c13.one_history(rng), "gen": "resize"})
+        cases.append({"sb": sbv(), "ops": c03.one_history(rng, **G), "gen": "tree"})
+    for i in range(320 if q else 9000):
+        cases.append({"sb": sbv(), "ops": c13.one_history(rng, spec_safe=True), "gen": "resize"})
     for i in range(30 if q else 1000):       # soft / external links (stored as separate objects by this writer)
-        cases.append({"sb": sbv(), "ops": histgen.gen_mixed(rng, nops=rng.choice([12, 30]), fail_rate=0.05, soft_links=True, resize=False), "gen": "softlinks"})
+        cases.append({"sb": sbv(), "ops": histgen.gen_mixed(rng, nops=rng.choice([12, 30]), fail_rate=0.05, soft_links=True, resize=False, **G), "gen": "softlinks"})
         cases[-1]["ops"].append({"op": "extlink", "path": "/ext%d" % i, "file": "other_%d.h5" % i, "target": "/some/where"})
     # fixed corner cases: empty file, never-written datasets, full symbol table node
     for sb in (0, 2, 3):
@@ -231,6 +264,8 @@ def compare_tree(orc, res):
         wt = want_type(o)
         if wt is not None and type_of(cur["dt"]) != wt:
             f.append("data: dataset %s has type (class,size,signed)=%s, written %s %s" % (path, type_of(cur["dt"]), o.dtype, wt))
+        for x in histlib.type_desc_problems(o, cur["dt"]):      # compound members, enum members, array dimensions, opaque tag, reference kind, vlen base
+            f.append("data: dataset %s: %s" % (path, x))
         if list(cur["dims"]) != list(o.dims):
             f.append("data: dataset %s has shape %s, expected %s" % (path, cur["dims"], o.dims))
             continue
@@ -243,10 +278,14 @@ def compare_tree(orc, res):
         wf = sorted(FILTER_ID[x.split(":")[0]] for x in o.filters)
         if sorted(cur["filters"]) != wf:
             f.append("data: dataset %s has filters %s, created with %s" % (path, cur["filters"], o.filters))
-        if o.data is not None and cur["data"] != o.data:
+        if isinstance(o.data, list):
+            if "vlen" in cur and [bytes(x) for x in cur["vlen"]] != o.data:
+                i = next((i for i, (a, b) in enumerate(zip(cur["vlen"], o.data)) if bytes(a) != b), -1)
+                f.append("data: variable-length dataset %s decodes to different elements than were written (first difference at element %d)" % (path, i))
+        elif o.data is not None and cur["data"] != o.data:
             i = next((i for i in range(min(len(cur["data"]), len(o.data))) if cur["data"][i] != o.data[i]), min(len(cur["data"]), len(o.data)))
             f.append("data: dataset %s decodes to different bytes than were written (first difference at byte %d; %d vs %d bytes)" % (path, i, len(cur["data"]), len(o.data)))
-        if o.data is None and any(cur["data"]) and cur["layout"] == "contiguous":
+        if o.data is None and not isinstance(cur.get("data"), type(None)) and any(cur["data"]) and cur["layout"] == "contiguous":
             pass    # never written: content unspecified
     for oid, addrs in addr_of.items():
         if len(addrs) > 1:
@@ -346,6 +385,37 @@ def known_tags():
     if extra:
         entries += [e for e in json.load(open(extra))["findings"] if e.get("property") == "C05" and e.get("status") == "open"]
     return {e["tag"]: e for e in entries if "tag" in e}
+
+
+def known_cases(H):
+    """findings whose class the generated histories leave out (no deviation tag exists for them in the specification tie): the witness
+    history of every listed entry that has `witness` and `match` is replayed; -> (known lines, violations)"""
+    lines, viol = [], []
+    entries = list(vlib.known_findings("C05"))
+    listed_ids = {e["id"] for e in entries}
+    extra = os.environ.get("VERIF_KNOWN_EXTRA")
+    if extra:
+        entries += [e for e in json.load(open(extra))["findings"] if e.get("property") == "C05" and e.get("status") == "open"]
+    for cid, case, match in KNOWN_CASES:
+        r, j = run_one(H, dict(case, gen="known"))
+        hit = [p for p in j["problems"] if match in p]
+        if any(e["id"] == cid for e in entries):
+            lines.append("%s: %s" % (cid, hit[0][:200]) if hit else "%s: listed finding did NOT reproduce in this run (fixed upstream?)" % cid)
+        elif hit:
+            viol.append(dict(what=hit[0], failing_input={k: case[k] for k in ("sb", "ops")}, note="class %s is not listed in KNOWN_FINDINGS.json" % cid))
+    return lines, viol
+
+
+_M = lambda **kw: dict(kw)
+KNOWN_CASES = [
+    ("C05-compound-member-float-props",
+     {"sb": 2, "ops": [{"op": "mkcompound", "path": "/c", "dims": [1], "csize": 4, "enc": "fields", "members": [{"name": "v", "type": "float32", "off": 0}]}]},
+     "floating-point member description"),
+    ("C05-compound-string-member-not-last",
+     {"sb": 2, "ops": [{"op": "mkcompound", "path": "/c", "dims": [1], "csize": 8, "enc": "fields",
+                        "members": [{"name": "s", "type": "string", "size": 4, "off": 0}, {"name": "i", "type": "int32", "off": 4}]}]},
+     "empty name of compound member"),
+]
 
 
 # ----------------------------------------------------------------------------- Coq cross-check
@@ -600,8 +670,12 @@ def run(ctx):
             known_lines.append("%s: listed finding did NOT reproduce in this run (fixed upstream?)" % e.get("id", "C05-" + t))
     # encoder-level findings whose witness is a theorem about the encoder transcription (tied byte-exactly to Go by C11):
     # Props/C05Spec.v is re-checked by check.py before this module runs, so reaching this point re-confirms them
+    kc_lines, kc_viol = known_cases(H)
+    known_lines += kc_lines
+    viol += kc_viol
+    reproduced = {e.get("id") for t, e in listed.items() if tagcount.get(t)}
     for e in vlib.known_findings("C05"):
-        if e.get("confirmed_by_theorem"):
+        if e.get("confirmed_by_theorem") and e["id"] not in reproduced:
             known_lines.append("%s: %s (re-confirmed by theorem %s, Props/C05Spec.v re-checked in this run; no generated file uses this datatype class)"
                                % (e["id"], (e.get("what") or e.get("title") or "")[:160], e["confirmed_by_theorem"]))
     # Coq cross-check of the sweep and of the checksum models
